@@ -491,3 +491,80 @@ func TestC08Parallel(t *testing.T) {
 		return c
 	}, judgePar)
 }
+
+// Tariffs: the rating server prices against thousands of different stored unit costs, then against the first ones
+// again; the price of a request depends on the stored unit cost only, not on how many other tariffs the server has
+// seen in between.
+type tariffsCase struct {
+	N     int `json:"n"`     // distinct unit costs
+	Again int `json:"again"` // how many of the first ones are priced again at the end
+	Units int `json:"units"`
+	Form  int `json:"form"` // 0: 1..N written k; 1: written k.0; 2: k and k.00 in turn
+}
+
+func tariffText(form, k int) (string, *big.Rat) {
+	// (whole numbers only: fractional unit costs are truncated by server and CHF alike - a known finding of unit pricing)
+	switch {
+	case form == 1:
+		return fmt.Sprintf("%d.0", k), big.NewRat(int64(k), 1)
+	case form == 2 && k%2 == 0:
+		return fmt.Sprintf("%d.00", k), big.NewRat(int64(k), 1)
+	}
+	return fmt.Sprint(k), big.NewRat(int64(k), 1)
+}
+
+func judgeTariffs(c tariffsCase) *h.Verdict {
+	v := &h.Verdict{NonTrivial: true}
+	if ratingPeer == nil {
+		p, err := Dial(env.RfPort, env.PemFile, env.KeyFile, "SUA")
+		if err != nil {
+			return v.Failf("HARNESS-dial", "%v", err)
+		}
+		ratingPeer = p
+	}
+	supi := env.NewSupi()
+	units := uint32(c.Units)
+	price := func(k int, when string) bool {
+		text, dec := tariffText(c.Form, k)
+		env.SetAccount(supi, 1, 1_000_000_000, text)
+		sua, err := sendSUR(ratingPeer, supi, 1, 2, units, 0, 2*time.Second)
+		if err != nil || sua == nil || sua.ServiceRating == nil {
+			if err != nil {
+				ratingPeer.Close()
+				ratingPeer = nil
+			}
+			v.Failf("no-answer/many-tariffs", "%s: DEBIT of %d units against stored unit cost %q: %v %v", when, units, text, sua, err)
+			return false
+		}
+		want := new(big.Rat).Mul(dec, new(big.Rat).SetUint64(uint64(units)))
+		if uint64(sua.ServiceRating.Price) != want.Num().Uint64() {
+			v.Failf("debit-price/depends-on-tariffs-seen-before", "%s: DEBIT of %d units against stored unit cost %q is priced %d, exact %s", when, units, text, sua.ServiceRating.Price, want.RatString())
+			return false
+		}
+		return true
+	}
+	for k := 1; k <= c.N; k++ {
+		if !price(k, fmt.Sprintf("tariff number %d of %d", k, c.N)) {
+			return v
+		}
+	}
+	for k := 1; k <= c.Again; k++ {
+		if !price(k, fmt.Sprintf("tariff number %d priced again after %d different ones", k, c.N)) {
+			return v
+		}
+	}
+	if c.N > 16384 {
+		v.Label("distinct-tariffs>16384-then-the-first-again")
+	}
+	if c.N > 256 {
+		v.Label("distinct-tariffs>256-then-the-first-again")
+	}
+	return v
+}
+
+func TestC08Tariffs(t *testing.T) {
+	h.Run(t, "C08", "tariffs", func(t *rapid.T) tariffsCase {
+		return tariffsCase{N: rapid.IntRange(16500, h.Scale(18000, 70000)).Draw(t, "n"), Again: rapid.IntRange(300, 600).Draw(t, "again"),
+			Units: rapid.IntRange(1, 50).Draw(t, "units"), Form: rapid.IntRange(0, 2).Draw(t, "form")}
+	}, judgeTariffs)
+}
